@@ -261,6 +261,18 @@ theorem getTokenID_err_iff (ty : PType) (t : Tok) :
       ((∀ d, ty ≠ .aws d) ∧ t.parses = false) := by
   cases ty <;> simp [getTokenID] <;> grind
 
+/-- **reuse_iff_configured.** A configured provisioner answers `ErrAllowTokenReuse` exactly when it is an
+    Azure provisioner whose configuration says `disableTrustOnFirstUse` (and the token parses); no other
+    configuration field — in particular not `disableCustomSANs` — has any influence on the token id. -/
+theorem reuse_iff_configured (c : PCfg) (t : Tok) :
+    (getTokenID (ptypeOf c) t = .reuse ↔ c.kind = .azure ∧ c.disableTrustOnFirstUse = true ∧ t.parses = true) ∧
+    ptypeOf c = ptypeOf { c with disableCustomSANs := !c.disableCustomSANs } := by
+  refine ⟨?_, by unfold ptypeOf; rfl⟩
+  rw [getTokenID_reuse_iff]
+  unfold ptypeOf
+  cases c with
+  | mk k d s => cases k <;> cases d <;> simp
+
 /-- **exceptions_exact.** In every history, a request that got past step 2 *without* its own
     CAS storing a record is one of: the skip-reuse context (identity certificate issued
     alongside an SSH certificate), a provisioner whose `GetTokenID` answers
